@@ -83,6 +83,9 @@ def frame(kind, f=(), pdvs=(), grey=False, raw=None):
         b = W.enc_pdu({'t': 7, 'source': f[0], 'reason': f[1]})
     elif kind == 'PD':
         b = W.enc_pdu({'t': 4, 'pdvs': [{'ctx': c, 'val': v} for (_, _, v, c) in pdvs]})
+    elif kind == 'UNK0':
+        b = struct.pack('>BBI', 0x08, 0, 0)            # header only: an unrecognised type with an empty body
+        kind = 'UNK'
     elif kind == 'UNK':
         b = struct.pack('>BBI', 0x2A, 0, 4) + b'\1\2\3\4'
     else:
@@ -225,6 +228,7 @@ class Run(object):
         s.peer_reset = True
         s.rx = bytearray()
         self.transit = bytearray()
+        self.fin_pending = True
         self.trace.append({'ev': 'PeerReset'})
 
     def user_put(self, kind, f=()):
@@ -255,6 +259,7 @@ class Run(object):
         sock_before = self._cur_sock()
         nlog = len(sock_before.recv_log) if sock_before else 0
         nsent = {id(s): len(s.sent) for s in self._all_socks()}
+        nfail = sum(s.failed_sends for s in self._all_socks())
         try:
             exc = p.step()
         except Hang as h:
@@ -275,6 +280,9 @@ class Run(object):
         consumed = acts[0][0] + 1 if acts else 0
         post_evq = list(p.event)
         q = ([acts[0][0]] if acts else []) + post_evq
+        sendfail = sum(s.failed_sends for s in self._all_socks()) > nfail
+        if sendfail and q and q[-1] == 16:
+            q = q[:-1]             # the transport-closed event raised by the failed write, not by the poll
         if q[:len(pre_evq)] != pre_evq:
             newevt = -1          # the FIFO was disturbed
         else:
@@ -313,7 +321,8 @@ class Run(object):
             'st': p.state_machine.current_state + 1, 'sock': sk,
             'artim': timer_state(p, self.env.clock), 'evq': [e + 1 for e in post_evq],
             'raw': len(p.raw_pdu), 'uq': p.from_service_user.qsize(), 'gen': gen_left,
-            'wire': sent, 'ind': [self._ind(i) for i in inds], 'closed': closed_now})
+            'wire': sent, 'ind': [self._ind(i) for i in inds], 'closed': closed_now,
+            'sendfail': sendfail})
         return 'ok'
 
     def _all_socks(self):
